@@ -15,6 +15,7 @@ import (
 	"path/filepath"
 	"runtime"
 	"sort"
+	"strings"
 	"sync"
 	"sync/atomic"
 	"time"
@@ -33,6 +34,8 @@ func childMain(mode string) {
 	switch mode {
 	case "conc":
 		err = childConc()
+	case "vanish":
+		err = childVanish()
 	case "sys":
 		err = childSys()
 	default:
@@ -53,7 +56,9 @@ type concSpec struct {
 	Reloads int
 	Keys    int
 	Readers int
-	Keep    int // observations kept per reader
+	Keep    int // observations kept per reader that straddle a reload
+	KeepChg int // ... and that differ from the reader's previous observation of the same key
+	Env     map[string]string
 }
 
 type concObs struct {
@@ -66,6 +71,7 @@ type concObs struct {
 }
 
 type concVersion struct {
+	Gone  bool          `json:"gone"` // the file was taken away (Lines: what it held before)
 	Lines [][2]string   `json:"lines"`
 	Sec   int           `json:"sec"`
 	Ms    int           `json:"ms"`
@@ -101,6 +107,10 @@ func (o *pairObs) ApplyConfig(c config.Config) {
 	o.mu.Unlock()
 }
 
+// keys the readers ask for besides the file's own: two the file and the library's defaults
+// both have, one only the defaults have, one only the environment has
+var concDefaultKeys = []string{"enabled", "tx_max_count", "debug", "env_only"}
+
 func (o *pairObs) take() [][][2]string {
 	o.mu.Lock()
 	defer o.mu.Unlock()
@@ -121,6 +131,8 @@ func concLines(r *rand.Rand, ver, nkeys int) [][2]string {
 	for j := 0; j <= ver/8; j++ {
 		ls = append(ls, [2]string{fmt.Sprintf("extra%d", j), fmt.Sprintf("%d", ver*10+j)})
 	}
+	// keys the library's defaults have too (a file that disappears leaves the defaults' values)
+	ls = append(ls, [2]string{"enabled", []string{"false", "true", ""}[ver%3]}, [2]string{"tx_max_count", fmt.Sprint(1000 + ver)})
 	return ls
 }
 
@@ -176,17 +188,22 @@ func childConc() error {
 			rr := rand.New(rand.NewSource(sp.Seed*131 + int64(g)))
 			first := true
 			n := int64(0)
+			last := map[string]string{} // this reader's previous observation per key
+			lastKeys, chg := -1, 0
 			for !stop.Load() {
 				lo := int(done.Load())
 				var o concObs
-				if n%64 == 63 {
+				if n%16 == 15 {
 					ks := conf.GetKeys()
 					o = concObs{Kind: "keys", Keys: ks}
 				} else {
 					var k string
-					if rr.Intn(5) == 0 {
+					switch x := rr.Intn(10); {
+					case x < 2:
 						k = fmt.Sprintf("extra%d", rr.Intn(1+sp.Reloads/8))
-					} else {
+					case x < 6:
+						k = concDefaultKeys[rr.Intn(len(concDefaultKeys))]
+					default:
 						k = fmt.Sprintf("key%d", rr.Intn(sp.Keys))
 					}
 					switch n % 4 {
@@ -204,8 +221,24 @@ func childConc() error {
 				}
 				o.Lo, o.Hi = lo, int(started.Load())
 				n++
-				// keep the observations that straddle a reload first, then a thin sample
-				if len(obs[g]) < sp.Keep && (o.Lo != o.Hi || n%4096 == 1) {
+				// which observations are recorded (TLC judges every recorded one): the first that
+				// straddle a reload and a thin sample, and -- so that a configuration which shows
+				// for an instant only is not lost among millions of reads -- every observation that
+				// differs from this reader's previous one of the same key (of the number of keys)
+				changed := false
+				if o.Kind == "keys" {
+					changed = lastKeys >= 0 && lastKeys != len(o.Keys)
+					lastKeys = len(o.Keys)
+				} else {
+					prev, seen := last[o.K]
+					changed = seen && prev != o.Ret
+					last[o.K] = o.Ret
+				}
+				if changed && chg < sp.KeepChg {
+					chg++
+					sort.Strings(o.Keys)
+					obs[g] = append(obs[g], o)
+				} else if len(obs[g])-chg < sp.Keep && (o.Lo != o.Hi || n%4096 == 1) {
 					sort.Strings(o.Keys)
 					obs[g] = append(obs[g], o)
 				}
@@ -218,6 +251,8 @@ func childConc() error {
 		}(g)
 	}
 	ready.Wait()
+	gone := false
+	ls := v0
 	for i := 1; i <= sp.Reloads; i++ {
 		if r.Intn(3) == 0 {
 			sec, ms = sec+1, r.Intn(1000)
@@ -226,14 +261,29 @@ func childConc() error {
 		} else {
 			sec, ms = sec+1, 0
 		}
-		ls := concLines(r, i, sp.Keys)
-		if err := writeVersion(path, ls, sec, ms); err != nil {
-			return err
+		if !gone && r.Intn(3) == 0 {
+			// the file is taken away: unlinked or renamed away
+			var err error
+			if r.Intn(2) == 0 {
+				err = os.Remove(path)
+			} else {
+				err = os.Rename(path, path+".away")
+			}
+			if err != nil {
+				return err
+			}
+			gone = true
+		} else {
+			ls = concLines(r, i, sp.Keys)
+			if err := writeVersion(path, ls, sec, ms); err != nil {
+				return err
+			}
+			gone = false
 		}
 		started.Store(int64(i))
 		conf.ReloadNowForVerif()
 		done.Store(int64(i))
-		out.Versions = append(out.Versions, concVersion{Lines: ls, Sec: sec, Ms: ms, Snap: snapPairs(conf), Notes: po.take()})
+		out.Versions = append(out.Versions, concVersion{Gone: gone, Lines: ls, Sec: sec, Ms: ms, Snap: snapPairs(conf), Notes: po.take()})
 		if i%16 == 0 {
 			time.Sleep(200 * time.Microsecond)
 		}
@@ -275,7 +325,24 @@ func histConc(c *core.Ctx, t *core.Trace, gen string, cas int) error {
 	}
 	defer os.RemoveAll(dir)
 	r := c.Rng(gen, cas)
-	sp := concSpec{Dir: dir, Seed: r.Int63(), Reloads: c.Pick(120, 600), Keys: 10, Readers: 8, Keep: c.Pick(30, 80)}
+	sp := concSpec{Dir: dir, Seed: r.Int63(), Reloads: c.Pick(160, 600), Keys: 10, Readers: 8, Keep: c.Pick(30, 80), KeepChg: c.Pick(250, 600),
+		// the child's environment names a key the file always sets (sometimes to the empty value), a
+		// key that enters the file late, and a key no file has
+		Env: map[string]string{"enabled": "from-env", "extra3": "early", "env_only": " E1 "}}
+	for k := range sp.Env {
+		if !usableKey(k) {
+			delete(sp.Env, k)
+		}
+	}
+	envEv := []interface{}{}
+	envKeys := []string{}
+	for k := range sp.Env {
+		envKeys = append(envKeys, k)
+	}
+	sort.Strings(envKeys)
+	for _, k := range envKeys {
+		envEv = append(envEv, []core.Bytes{core.Str(k), core.Str(sp.Env[k])})
+	}
 	spb, _ := json.Marshal(sp)
 	outp := filepath.Join(dir, "out.json")
 	exe, err := os.Executable()
@@ -284,6 +351,9 @@ func histConc(c *core.Ctx, t *core.Trace, gen string, cas int) error {
 	}
 	cmd := exec.Command(exe)
 	cmd.Env = append(os.Environ(), "C18_CHILD=conc", "C18_SPEC="+string(spb), "C18_OUT="+outp)
+	for _, k := range envKeys {
+		cmd.Env = append(cmd.Env, k+"="+sp.Env[k])
+	}
 	cmd.Dir = dir
 	msg, runErr := cmd.CombinedOutput()
 
@@ -291,7 +361,7 @@ func histConc(c *core.Ctx, t *core.Trace, gen string, cas int) error {
 	if runErr != nil {
 		// the child died: there is no record of its versions; the history is the death itself
 		t.Reset(gen, cas, core.Ev{"pre": core.Str(""), "suf": core.Str(""), "excl": []core.Bytes{}, "nobs": 1,
-			"file": kvLinesEv(concLines(r, 0, nkeys)), "mt": []int{0, 0}})
+			"file": kvLinesEv(concLines(r, 0, nkeys)), "mt": []int{0, 0}, "exists": true, "penv": envEv, "libdefs": defaultsEv()})
 		tail := string(msg)
 		if len(tail) > 600 {
 			tail = tail[:600]
@@ -310,20 +380,28 @@ func histConc(c *core.Ctx, t *core.Trace, gen string, cas int) error {
 	}
 	v0 := out.Versions[0]
 	t.Reset(gen, cas, core.Ev{"pre": core.Str(""), "suf": core.Str(""), "excl": []core.Bytes{}, "nobs": 1,
-		"file": kvLinesEv(v0.Lines), "mt": []int{v0.Sec, v0.Ms}})
+		"file": kvLinesEv(v0.Lines), "mt": []int{v0.Sec, v0.Ms}, "exists": true, "penv": envEv, "libdefs": defaultsEv()})
+	t.Emit(core.Ev{"ev": "ObsAdd", "name": core.Str("o"), "id": 0})
 	notesEv := func(n [][][2]string) []interface{} {
 		o := []interface{}{}
 		for _, x := range n {
-			o = append(o, pairsEv(x))
+			o = append(o, core.Ev{"o": 0, "s": pairsEv(x)})
 		}
 		return o
 	}
 	t.Emit(core.Ev{"ev": "New", "snap": pairsEv(v0.Snap), "notes": notesEv(v0.Notes)})
+	disappeared := 0
 	for _, v := range out.Versions[1:] {
-		le := kvLinesEv(v.Lines)
-		t.Emit(core.Ev{"ev": "Edit", "lines": le, "parsed": le, "mt": []int{v.Sec, v.Ms}})
+		if v.Gone {
+			disappeared++
+			t.Emit(core.Ev{"ev": "Delete", "how": 0})
+		} else {
+			le := kvLinesEv(v.Lines)
+			t.Emit(core.Ev{"ev": "Edit", "lines": le, "parsed": le, "mt": []int{v.Sec, v.Ms}})
+		}
 		t.Emit(core.Ev{"ev": "Reload", "snap": pairsEv(v.Snap), "notes": notesEv(v.Notes)})
 	}
+	c.SetExtra("concurrent_reloads_that_found_the_file_gone", disappeared)
 	straddle := 0
 	for _, o := range out.Obs {
 		if o.Lo != o.Hi {
@@ -347,5 +425,123 @@ func histConc(c *core.Ctx, t *core.Trace, gen string, cas int) error {
 	c.Count(fmt.Sprint(gen, ":", cas), true)
 	c.SetExtra("concurrent_getter_calls", out.Reads)
 	c.SetExtra("concurrent_observations_straddling_a_reload", straddle)
+	return nil
+}
+
+// ------------------------------------------------------------------ vanish (witness of C18-read-fatal)
+
+// The file vanishes between a reload's stat and the parser's read.  The child records every
+// step as it happens (one unbuffered line per event); the parent copies them into the trace
+// and, if the child did not survive, adds the event no specification has an action for.
+
+var vanishFiles = [][][2]string{
+	{{"a", "1"}, {"b", "2"}},
+	{{"a", "2"}, {"b", "2"}, {"c", "3"}},
+	{{"a", "4"}},
+}
+
+type vanishParser struct {
+	inner conffile.FileParser
+	n     int
+	emit  func(core.Ev)
+}
+
+func (p *vanishParser) Write(path string, m *map[string]string) error { return p.inner.Write(path, m) }
+
+func (p *vanishParser) Read(path string) (map[string]string, error) {
+	p.n++
+	if p.n != 2 {
+		return p.inner.Read(path)
+	}
+	p.emit(core.Ev{"ev": "RlStat"})
+	if err := os.Remove(path); err != nil {
+		panic(err)
+	}
+	p.emit(core.Ev{"ev": "Delete", "how": 0})
+	m, err := p.inner.Read(path) // the library's parser on a file that is not there
+	if err != nil {
+		p.emit(core.Ev{"ev": "RlParseFail", "err": err.Error()})
+	}
+	return m, err
+}
+
+func childVanish() error {
+	dir, outp := os.Getenv("C18_DIR"), os.Getenv("C18_OUT")
+	f, err := os.OpenFile(outp, os.O_CREATE|os.O_WRONLY|os.O_APPEND, 0o644)
+	if err != nil {
+		return err
+	}
+	emit := func(ev core.Ev) {
+		b, err := json.Marshal(ev)
+		if err != nil {
+			panic(err)
+		}
+		f.Write(append(b, '\n'))
+	}
+	path := filepath.Join(dir, "whatap.conf")
+	if err := writeVersion(path, vanishFiles[0], 0, 0); err != nil {
+		return err
+	}
+	conf := conffile.NewFileConfigForVerif(conffile.WithHomePath(dir), conffile.WithParser(&vanishParser{inner: conffile.NewDefaultFileParser(), emit: emit}))
+	emit(core.Ev{"ev": "New", "snap": pairsEv(snapPairs(conf)), "notes": []interface{}{}})
+	if err := writeVersion(path, vanishFiles[1], 1, 0); err != nil {
+		return err
+	}
+	le := kvLinesEv(vanishFiles[1])
+	emit(core.Ev{"ev": "Edit", "lines": le, "parsed": le, "mt": []int{1, 0}})
+	conf.ReloadNowForVerif() // RlStat, Delete, then the parser
+	emit(core.Ev{"ev": "RlAbort", "snap": pairsEv(snapPairs(conf)), "notes": []interface{}{}})
+	conf.ReloadNowForVerif() // the file is missing: the defaults
+	emit(core.Ev{"ev": "Reload", "snap": pairsEv(snapPairs(conf)), "notes": []interface{}{}})
+	m := map[string]string{"a": "9"}
+	conf.SetValues(&m) // a write-back without a file
+	_, serr := os.Stat(path)
+	emit(core.Ev{"ev": "SetValuesGone", "kv": pairsEv([][2]string{{"a", "9"}}), "exists": !os.IsNotExist(serr)})
+	if err := writeVersion(path, vanishFiles[2], 2, 0); err != nil {
+		return err
+	}
+	le = kvLinesEv(vanishFiles[2])
+	emit(core.Ev{"ev": "Edit", "lines": le, "parsed": le, "mt": []int{2, 0}})
+	conf.ReloadNowForVerif()
+	emit(core.Ev{"ev": "Reload", "snap": pairsEv(snapPairs(conf)), "notes": []interface{}{}})
+	return f.Close()
+}
+
+func histVanish(c *core.Ctx, t *core.Trace, gen string, cas int) error {
+	dir, err := os.MkdirTemp(c.OutDir, "vanish-")
+	if err != nil {
+		return err
+	}
+	defer os.RemoveAll(dir)
+	outp := filepath.Join(dir, "events.ndjson")
+	exe, err := os.Executable()
+	if err != nil {
+		return err
+	}
+	cmd := exec.Command(exe)
+	cmd.Env = append(os.Environ(), "C18_CHILD=vanish", "C18_DIR="+dir, "C18_OUT="+outp)
+	cmd.Dir = dir
+	msg, runErr := cmd.CombinedOutput()
+	t.Reset(gen, cas, core.Ev{"pre": core.Str(""), "suf": core.Str(""), "excl": []core.Bytes{}, "nobs": 0,
+		"file": kvLinesEv(vanishFiles[0]), "mt": []int{0, 0}, "exists": true, "penv": []interface{}{}, "libdefs": defaultsEv()})
+	b, _ := os.ReadFile(outp)
+	for _, ln := range strings.Split(string(b), "\n") {
+		if strings.TrimSpace(ln) == "" {
+			continue
+		}
+		var ev core.Ev
+		if err := json.Unmarshal([]byte(ln), &ev); err != nil {
+			return err
+		}
+		t.Emit(ev)
+	}
+	if runErr != nil {
+		tail := string(msg)
+		if len(tail) > 600 {
+			tail = tail[:600]
+		}
+		t.Emit(core.Ev{"ev": "CFatal", "err": runErr.Error(), "msg": tail})
+	}
+	c.Count(gen, true)
 	return nil
 }
